@@ -401,6 +401,12 @@ class SkelEval(Eval):
             return base.fields['table'][h]
         if isinstance(base, list) and isinstance(h, Handle):
             return base[h[2]][1]
+        # a fixed list / array indexed by a number computed from the input (`formats[components - 1]`)
+        hv = h.value if isinstance(h, Num) else h
+        if isinstance(base, (list, tuple)) and isinstance(hv, int) and not isinstance(hv, bool):
+            if 0 <= hv < len(base):
+                return base[hv]
+            raise Diverge('index out of bounds', 0)
         raise Unbound(t)
 
     def ev_f(self, t):
